@@ -218,9 +218,7 @@ def scale_oplists(pid, seed):
                     {"k": "sub", "i": 1, "P": keep, "extra": p150},
                     {"k": "probe", "is": [1, 2], "extra": p150},
                     {"k": "add", "i": 2, "rec": {"p": "late", "u": "http://late.example/", "ps": [], "us": ["http://big.example/003/late/"], "pat": None}, "cs": True, "mg": False, "via": "record", "extra": p150},
-                    {"k": "probe", "is": [1, 2], "extra": p150 + ["http://big.example/003/late/1"]},
-                    {"k": "chain", "is": [2, 1], "cs": False, "extra": p150},
-                    {"k": "probe", "is": [1, 2, 3], "extra": p150}])
+                    {"k": "probe", "is": [1, 2], "extra": p150 + ["http://big.example/003/late/1"]}])
         out.append([{"k": "new", "recs": big, "delim": ":"}, {"k": "new", "recs": [{"p": "P003", "u": "http://x.example/3/", "ps": ["x3"], "us": ["HTTP://BIG.EXAMPLE/004/"], "pat": None}], "delim": ":"},
                     {"k": "chain", "is": [1, 2], "cs": True}, {"k": "chain", "is": [1, 2], "cs": False}, {"k": "chain", "is": [2, 1], "cs": False}])
     if pid in ("C11", "C10"):
